@@ -161,14 +161,14 @@ PROPS['C09'] = {
 }
 PROPS['C12'] = {
     'units': [{'template': 'token.rs', 'rlimit': 30, 'items': [
-        r'^format::SerializedBiscuit::extract_blocks$', r'^datalog::symbol::SymbolTable::new$', r'^token::public_keys::PublicKeys::new$', r'^token::default_symbol_table$',
+        r'^format::SerializedBiscuit::extract_blocks$', r'^datalog::symbol::SymbolTable::(new|extend)$', r'^token::public_keys::PublicKeys::(new|extend)$', r'^token::default_symbol_table$',
         r'^token::Biscuit::(new_with_key_pair|from_with_symbols|from_serialized_container|append_with_keypair|append_third_party_with_keypair|seal|block)$',
         r'^token::unverified::UnverifiedBiscuit::(from_with_symbols|unsafe_deprecated_deserialize|append_with_keypair|append_third_party_with_keypair|seal|verify|block)$']}],
     'proved': 'the table invariant inv(token): token.symbols / token.public_keys == the tables a verifier reconstructs from the container (authority block + every first-party block, in order, third-party blocks skipped), '
               'and blocks.len() == container.blocks.len(). SerializedBiscuit::extract_blocks computes exactly that reconstruction (loop invariants over the blocks and over each key list) and returns the decoded payload of every block; '
               'inv is established by new_with_key_pair, from_with_symbols, from_serialized_container, UnverifiedBiscuit::{from_with_symbols, unsafe_deprecated_deserialize} and preserved by append_with_keypair, '
               'append_third_party_with_keypair, seal and verify on both token types; a third-party append leaves the tables unchanged (unverified path only after fix 5c2d5c0). Biscuit::block and UnverifiedBiscuit::block return exactly the decoded block (proto_block_to_token_block of the stored payload and external key), so both token types print a block from the same tables (unverified path only after fix 7c6e353).',
-    'not_covered': ['the internals of SymbolTable / PublicKeys (from, extend, is_disjoint, insert_fallible: HashSet / iterator code) and of BlockBuilder::build are assumed contracts, so "overlaps are refused" is decided only up to them',
+    'not_covered': ['the internals of SymbolTable / PublicKeys (from, is_disjoint, insert_fallible: HashSet / iterator code) and of BlockBuilder::build are assumed contracts, so "overlaps are refused" is decided only up to them (SymbolTable::extend and PublicKeys::extend themselves are proved: Ok only for disjoint tables, and then exactly the concatenation)',
                     'printing, authorizer equality of the in-memory and the reloaded token'],
     'assumptions': CRYPTO_ASSUMPTIONS + _TOKEN_CONTRACT_TRUST + ['token_block_to_proto_block writes exactly the block\'s own symbols and the encodings of its own public keys (axiom proto_of_tables); prost decode(encode(block)) = block',
                     'BlockBuilder::build returns a block whose own symbol table carries no public keys'],
